@@ -18,6 +18,8 @@
 (***************************************************************************)
 EXTENDS RV32
 
+Range(f) == {f[x] : x \in DOMAIN f}
+
 Bus0 == [p |-> <<>>, c |-> <<>>]                 \* SimpleBus: pending and current slot
 BusCanAdd(b) == b.p = <<>>
 BusAdd(b, x) == [b EXCEPT !.p = <<x>>]
@@ -40,7 +42,7 @@ S0(prog, withBtb) ==
     l1i |-> <<>>, l1d |-> <<>>, dbus |-> Bus0, ebus |-> Bus0, wbus |-> Bus0,
     eproc |-> FALSE, epend |-> FALSE, erem |-> 0, epc |-> -1, ehit |-> FALSE,
     wpend |-> FALSE, wcyc |-> 0, toCheck |-> FALSE, expect |-> 0,
-    pendW |-> [r \in {} |-> 0], k |-> 1, done |-> FALSE, bad |-> FALSE ]
+    pendW |-> [r \in {} |-> 0], k |-> 1, done |-> FALSE, bad |-> FALSE, lost |-> {} ]
 
 PendCount(s, r) == IF r \in DOMAIN s.pendW THEN s.pendW[r] ELSE 0
 Hazard(s, i) == \E r \in ReadRegs(i) \ {"zero"} : PendCount(s, r) > 0
@@ -87,7 +89,7 @@ RunIns(s, prog, fin) ==
   IF isRet THEN [st |-> s1, flush |-> FALSE, to |-> 0, ret |-> TRUE]
   ELSE IF storeHit THEN [st |-> [s1 EXCEPT !.eproc = FALSE, !.l1d = TouchLRU(@, ev.a)], flush |-> FALSE, to |-> 0, ret |-> FALSE]
   ELSE
-    LET s2 == [s1 EXCEPT !.eproc = FALSE, !.wbus = BusAdd(@, [kind |-> kind, regs |-> WriteRegs(i)]),
+    LET s2 == [s1 EXCEPT !.eproc = FALSE, !.wbus = BusAdd(@, [kind |-> kind, regs |-> WriteRegs(i), k |-> s.k]),
                           !.pendW = AddPend(@, WriteRegs(i))]
         nextPc == IF s.k < Len(fin.ev) THEN 4 * fin.ev[s.k + 1].i ELSE fin.pc
         pcChange == ev.t
@@ -166,7 +168,8 @@ Cycle4(s, prog, fin) ==
       x == Execute(a, prog, fin)
       b == Write(x.st)
   IN IF b.done THEN b
-     ELSE IF x.ret THEN [b EXCEPT !.done = TRUE]
+     \* `ret` ends the run at once: what is still queued for the write unit is never written (finding F09a)
+     ELSE IF x.ret THEN [b EXCEPT !.done = TRUE, !.lost = {e.k : e \in Range(b.wbus.p) \cup Range(b.wbus.c)}]
      ELSE IF x.flush
           THEN LET d == Drain(b) IN
                [d EXCEPT !.pc = x.to, !.fproc = FALSE, !.fcomplete = FALSE,
@@ -206,10 +209,21 @@ Run4(s, prog, fin, fuel) ==
        ELSE Run4(Cycle4(s, prog, fin), prog, fin, fuel - 1)
 
 (* the cycle count returned by mvp4.CPU.Run: loop cycles + 309 per resident data line; -1 if the model gave up *)
-CycP(prog, fin, withBtb) ==
-  IF fin.status \notin {"ret", "end"} \/ fin.misal THEN -1
+(* lost = the executed instructions (1-based positions in fin.ev) whose write-back the run drops *)
+ResP(prog, fin, withBtb) ==
+  IF fin.status \notin {"ret", "end"} \/ fin.misal THEN [cyc |-> -1, lost |-> {}]
   ELSE LET s == Run4(S0(prog, withBtb), prog, fin, 60000) IN
-       IF ~s.done \/ s.bad THEN -1 ELSE s.cycle + LatMem * Len(s.l1d)
-Cyc4(prog, fin) == CycP(prog, fin, FALSE)
-Cyc5(prog, fin) == CycP(prog, fin, TRUE)
+       IF ~s.done \/ s.bad THEN [cyc |-> -1, lost |-> {}] ELSE [cyc |-> s.cycle + LatMem * Len(s.l1d), lost |-> s.lost]
+Cyc4(prog, fin) == ResP(prog, fin, FALSE).cyc
+Cyc5(prog, fin) == ResP(prog, fin, TRUE).cyc
+
+(* the final state MVP-4/5 reach as coded: the sequential run without the effects of the lost write-backs. *)
+(* No later instruction can depend on a lost register write (it would have waited for the write-back), and *)
+(* a later load of a lost store sees the old bytes here as it does there.                                    *)
+RECURSIVE SkipRun(_, _, _, _, _, _)
+SkipRun(prog, st, lost, img, memSize, fuel) ==
+  IF st.status # "run" \/ fuel = 0 THEN st
+  ELSE LET st2 == Step(prog, st, img, memSize) IN
+       SkipRun(prog, IF (st.n + 1) \in lost /\ st2.status = "run" THEN [st2 EXCEPT !.regs = st.regs, !.mem = st.mem] ELSE st2,
+               lost, img, memSize, fuel - 1)
 =======================================================================
